@@ -17,6 +17,7 @@ RULE = ('item lists up to the length bound over an alphabet with empty items and
         'each also with empty chunks interleaved, and fed to the real unframe(); plus an unterminated trailing line and EVERY '
         'truncation point of a length-prefixed stream. Non-trivial = chunking with a cut inside a prefix or a payload; states = '
         'distinct (configuration, position of a cut inside the frame structure) situations.')
+DEEP_PROBES = ('items ending in CR; the longest encodable payload for prefix sizes 1 and 2; 70 000 / 65 536 character lines; a line arriving in 1 500 one-character chunks; a payload beyond 64 KiB followed by small frames; the same unframe observable subscribed twice')
 ASSUMPTIONS = ['line items contain no newline (line framing cannot carry one)', 'streams longer than 13 units: at most 2 cuts']
 LEVEL_TEXT = ('Bounded-exhaustive model checking over the schedule dimension: every way of cutting the framed stream into chunks '
               '(the carry-over buffer is the operator\'s only state) for all short item lists and all prefix configurations.')
